@@ -131,6 +131,18 @@ def run (op impl : String) : Ans :=
       { model := renderSt fin n, verdict := verdict,
         tags := [s!"reloads{min reloads 3}", s!"reqs{min n 4}"] ++ (if failed > 0 then ["failed-reload"] else []) ++
           (if reloads > 0 && inflight then ["nt"] else []) }
+  | ["balreload", body] =>
+    -- balancer-table lock domain: g good reload, m gslb cluster missing from the cluster table (fails under the lock),
+    -- w gslb file rejected by the loader (before the lock), l Lookup; every call returns — none may HANG
+    let steps := body.toList
+    if steps.all (fun c => c == 'g' || c == 'm' || c == 'w' || c == 'l') then
+      let model := ",".intercalate (steps.map fun c => if c == 'g' || c == 'l' then "ok" else "err")
+      let fails := (steps.filter (· == 'm')).length
+      { model := model,
+        verdict := if (impl.splitOn ",").contains "HANG" then "FAIL:lock-leak"
+                   else if impl.startsWith "PANIC" then "FAIL:panic" else "ok",
+        tags := ["balreload", s!"failed-under-lock{min fails 2}"] ++ (if fails > 0 then ["nt"] else []) }
+    else { model := "bad-op", verdict := "skip" }
   | ["serve", body] => runServe body impl
   | ["stress", n] =>
     match n.toNat? with
